@@ -636,3 +636,110 @@ def rule_no_move_from_member(ctx, rule, scope, what, minimum=1):
                         ctx.bad(rule, f, "member-moved-out:%s:%s" % (short(f.qual), short(a.get("field") or "?")),
                                 "%s hands its own member %s to std::move and can be called again on the same object: %s" % (short(f.qual), short(a.get("field") or "?"), what), (f, n.get("ln")))
     ctx.need(rule, "re-callable member functions scanned for moved-out members", nf, minimum)
+
+
+def rule_special_members_complete(ctx, rule, cls_pred, what, minimum=1):
+    """G-special-members: a hand-written copy / move constructor or assignment operator takes over EVERY non-static data member from
+    its source: the member-wise list is complete (a member added later, or dropped while rewriting the operator as a swap, keeps the
+    target's old value). cls_pred: predicate on the qualified class name."""
+    prog = ctx.prog
+    nops = 0
+    for cn in sorted(prog.classes):
+        c = prog.classes[cn]
+        if not cls_pred(cn) or ("<" in cn and not c.get("pattern")) or not (c.get("file") or "").startswith("/repo/"):
+            continue
+        fields = [fl for fl in c.get("fields", []) if not fl.get("static")]
+        if not fields:
+            continue
+        for f in sorted(prog.methods_of(cn), key=lambda g: g.id):
+            if not f.has_cfg or not (f.flags.get("copy_ctor") or f.flags.get("move_ctor") or f.flags.get("copy_assign") or f.flags.get("move_assign")) or not f.params:
+                continue
+            if f.flags.get("implicit") or f.flags.get("defaulted"):
+                continue  # compiler-generated: member-wise by definition
+            nops += 1
+            src = f.params[0]["name"]
+            is_assign = bool(f.flags.get("copy_assign") or f.flags.get("move_assign"))
+            texts = []
+            delegating = False
+            for _, _, e in f.all_elems():
+                if e["kind"] == "init":
+                    if e.get("field"):
+                        texts.append((short(e["field"]), fmt(e["expr"]) if e.get("expr") is not None else ""))
+                    elif e.get("delegating") or e.get("base"):
+                        delegating = delegating or (src in (fmt(e["expr"]) if e.get("expr") is not None else ""))
+                elif e.get("expr") is not None:
+                    for n in walk(e["expr"], into_sc=True):
+                        if n.get("k") == "bin" and n.get("op") == "=":
+                            texts.append((fmt(ir.unwrap(n["l"])).replace("this->", ""), fmt(n["r"])))
+                        elif n.get("k") == "call" and n.get("op") == "=" and n.get("this") is not None and n.get("args"):
+                            texts.append((fmt(ir.unwrap(n["this"])).replace("this->", ""), fmt(n["args"][0])))
+                        elif n.get("k") == "call" and short(n.get("name") or "") in ("swap", "exchange") and len(n.get("args", [])) == 2:
+                            a, b = fmt(ir.unwrap(n["args"][0])).replace("this->", ""), fmt(ir.unwrap(n["args"][1])).replace("this->", "")
+                            texts.append((a, b))
+                            texts.append((b, a))
+                        elif n.get("k") == "call" and short(n.get("name") or "") == "swap" and n.get("this") is not None and len(n.get("args", [])) == 1:
+                            a, b = fmt(ir.unwrap(n["this"])).replace("this->", ""), fmt(ir.unwrap(n["args"][0]))
+                            texts.append((a, b))
+                            texts.append((b, a))
+            whole = any(re.search(r"\bswap\(\(?\*this\)?, %s\)|\b%s\.swap\(\(?\*this\)?\)|\(\*this\) = " % (re.escape(src), re.escape(src)), fmt(e["expr"])) for _, _, e in f.roots())
+            if delegating or whole:
+                ctx.ok(rule, f, "takes-over-every-member:%s" % short(f.qual), "delegates the whole object", f)
+                continue
+            missing = []
+            for fl in fields:
+                nm = fl["name"]
+                if is_assign and (fl.get("ref") or (fl.get("type") or "").startswith("const ")):
+                    continue
+                if not any(t == nm and re.search(r"\b%s\.%s\b|\b%s->%s\b" % (re.escape(src), re.escape(nm), re.escape(src), re.escape(nm)), r0) for t, r0 in texts):
+                    missing.append(nm)
+            kind = "move" if (f.flags.get("move_ctor") or f.flags.get("move_assign")) else "copy"
+            ctx.check(not missing, rule, f, "takes-over-every-member:%s:%s" % (short(cn), "%s-%s" % (kind, "assign" if is_assign else "ctor")),
+                      "the hand-written %s %s of %s does not take over %s from `%s`: %s" % (kind, "assignment" if is_assign else "constructor", short(cn), ", ".join(missing), src, what), f,
+                      why_ok="all %d members" % len(fields))
+    ctx.need(rule, "hand-written copy / move operations scanned", nops, minimum)
+
+
+def rule_no_char_index(ctx, rule, scope, what, minimum=1):
+    """G-char-index: no array / container element is selected with an index of type plain `char` (or signed char): where char is signed
+    (x86-64) every byte >= 0x80 is a negative number, converted to a huge unsigned index - the access lands outside the table."""
+    prog = ctx.prog
+    nf = 0
+    seen = set()
+
+    def plain_char(x):
+        x = ir.unwrap(x)
+        while isinstance(x, dict) and x.get("k") in ("cast", "paren"):
+            to = (x.get("to") or "").replace("const ", "").strip()
+            if to in ("unsigned char", "std::uint8_t", "uint8_t", "unsigned int", "std::size_t") and x.get("ck") not in (None, "implicit", "IntegralCast", "LValueToRValue", "NoOp"):
+                inner = ir.unwrap(x.get("e"))
+                it = ((inner.get("type") if isinstance(inner, dict) else "") or "").replace("const ", "").replace("&", "").strip()
+                # static_cast<unsigned char>(c) is the cure; static_cast<size_t>(c) sign-extends first and is not
+                return False if to in ("unsigned char", "std::uint8_t", "uint8_t") else (it in ("char", "signed char"))
+            x = ir.unwrap(x.get("e"))
+        if not isinstance(x, dict):
+            return False
+        t = (x.get("type") or "").replace("const ", "").replace("&", "").strip()
+        if t.endswith("value_type") and x.get("bits") == 8 and not x.get("u"):
+            return True
+        return t in ("char", "signed char")
+    for f in sorted(prog.fns.values(), key=lambda g: g.id):
+        if not f.has_cfg or not f.file.startswith("/repo/") or not scope(f):
+            continue
+        key = (f.file, f.line)
+        if key in seen:
+            continue
+        seen.add(key)
+        nf += 1
+        for bid, i, e in f.roots():
+            for n in walk(e["expr"]):
+                idx = None
+                if n.get("k") == "subscript":
+                    idx = n.get("idx")
+                elif n.get("k") == "call" and (short(n.get("name") or "") in ("at", "operator[]") or n.get("op") == "[]") and n.get("this") is not None and len(n.get("args", [])) == 1:
+                    bt = (ir.unwrap(n["this"]).get("type") or "") if isinstance(ir.unwrap(n["this"]), dict) else ""
+                    if "map" in bt or "set" in bt:
+                        continue  # keyed by value, not by position
+                    idx = n["args"][0]
+                if idx is not None and plain_char(idx):
+                    ctx.bad(rule, f, "char-index:%s:%s" % (short(f.qual), fmt(n)[:40]), "%s selects `%s` with an index of type char: %s" % (short(f.qual), fmt(n)[:60], what), (f, n.get("ln")))
+    ctx.need(rule, "functions scanned for char-typed indices", nf, minimum)
